@@ -597,7 +597,7 @@ def select__array_fold_left_right_functions(self: XPathFunction, context: ta.Con
 
     assert isinstance(func, XPathFunction)
     array_: XPathArray = self.get_argument(context, required=True, cls=XPathArray)
-    zero = self.get_argument(context, index=1)
+    zero = self[1].evaluate(context)  # $zero is item()*: any sequence, also empty
 
     result = zero
 
